@@ -198,6 +198,10 @@ class Interp(object):
     if isinstance(f, PyObj):
       m = self.getattr(f, '__call__')
       return self.call(m, args, kwargs)
+    if is_z3(f):
+      h = self.ext.get(('call', f.sort().name()))
+      if h is not None:
+        return h(self, f, args, kwargs)
     raise EngineError("cannot call %r" % (f,))
 
   def bind_args(self, node_args, args, kwargs, frame, fname):
@@ -502,6 +506,10 @@ class Interp(object):
         return True
       return False if not isinstance(a if b is None else b, OptVal) else \
           (a if b is None else b).is_none
+    if isinstance(a, Model) and hasattr(a, 'py___eq__'):
+      return a.py___eq__(self, b)
+    if isinstance(b, Model) and hasattr(b, 'py___eq__'):
+      return b.py___eq__(self, a)
     if isinstance(a, Inf) or isinstance(b, Inf):
       if isinstance(a, Inf) and isinstance(b, Inf):
         return a.sign == b.sign
@@ -576,6 +584,8 @@ class Interp(object):
     if isinstance(b, Model) and hasattr(b, 'py_compare'):
       return b.py_compare(self, op, a, True)
     if isinstance(a, tuple) and isinstance(b, tuple):
+      if all(isinstance(x, (int, float, str)) for x in a + b):
+        return {ast.Lt: a < b, ast.LtE: a <= b, ast.Gt: a > b, ast.GtE: a >= b}[type(op)]
       raise EngineError("tuple ordering")
     if is_num(a) and is_num(b) and not (is_z3(a) or is_z3(b)):
       return {ast.Lt: a < b, ast.LtE: a <= b, ast.Gt: a > b, ast.GtE: a >= b}[type(op)]
